@@ -64,7 +64,7 @@ Qed.
 
 Theorem body_multipart_roundtrip cfg b e ps data :
   boundary_ok b = true ->
-  Forall (fun p => part_ok b p = true) ps ->
+  Forall (fun p => part_ok_full b p = true) ps ->
   config_ok cfg ps = true ->
   encode_multipart b e ps = Some data ->
   parse_body cfg false (multipart_content_type b) data = Ok (expected ps).
@@ -177,7 +177,7 @@ Qed.
 
 Lemma parse_header_x_clean line : match parse_header_x line with Ok _ => True | Err e => e = EOutOfModel end.
 Proof.
-  unfold parse_header_x. destruct (split_params line false false []) as [k fields].
+  unfold parse_header_x. destruct (scan_params line false false []) as [k fields].
   destruct (decode_loop _ [] []) as [[plain groups]|]; [|exact I].
   destruct (existsb group_mixed groups); [exact I|].
   pose proof (groups_collapsed_clean groups) as Hg. destruct (groups_collapsed groups); [exact I|exact Hg].
